@@ -40,7 +40,7 @@ func c06Refuses(addr string) bool {
 func (e *c06E2E) runRefused(kind, mode string, src pb.RegistrationSource, dual bool, secret []byte) {
 	e.seq++
 	pol, rm := e.pols[mode], e.rms[mode]
-	label := fmt.Sprintf("refused:%s policy=%s source=%s dual=%v", kind, mode, src, dual)
+	label := fmt.Sprintf("refused:%s policy=%s source=%s dual=%v flags=%s", kind, mode, src, dual, e.flagsName)
 	e.rec.Case(label)
 	e.logbuf.Take()
 
@@ -234,6 +234,7 @@ func (e *c06E2E) runRefused(kind, mode string, src pb.RegistrationSource, dual b
 	}
 	e.rec.Count("evaluations", 1)
 	e.rec.Count("refused_evaluations", 1)
-	e.rec.Distinct("nontrivial", "refused", kind, mode, src.String(), dual)
+	e.rec.Distinct("nontrivial", "refused", kind, mode, src.String(), dual, e.flagsName)
+	e.rec.Count("flags["+e.flagsName+"].cases", 1)
 	e.rec.Distinct("refused_kinds", kind, mode)
 }
